@@ -777,6 +777,47 @@ is_multi_move(const struct lyd_node *n)
     return !n->parent && !n->prev->next && n->next;
 }
 
+#ifdef SIB_WB
+/* triggers of F164 / F165, evaluated on the real structures before a bulk move (lyd_move_nodes_by_schema): a moved
+ * (leaf-)list with a sorting tree meets destination instances without one (lyds_merge_nodes2);
+ * F164: the last destination instance has a following sibling, F165: the destination leader has empty lyds metadata */
+static void
+mark_merge2(const struct lyd_node *n, const struct lyd_node *first_dst)
+{
+    const struct lyd_node *s, *d, *e;
+    int f164 = 0, f165 = 0;
+
+    LY_LIST_FOR(n, s) {
+        struct lyd_meta *mt = NULL;
+        if (!s->schema || !lyds_is_supported(s) || (s != n && s->prev->schema == s->schema)) continue;
+        if (!lyds_get_rb_tree(s, NULL)) continue;
+        LY_LIST_FOR(first_dst, d) if (d->schema == s->schema) break;
+        if (!d || lyds_get_rb_tree(d, &mt)) continue;
+        if (mt) f165 = 1;
+        for (e = d; e->next && e->next->schema == d->schema; e = e->next) {}
+        if (e->next) f164 = 1;
+    }
+    if (f164) MARK("F164");
+    if (f165) MARK("F165");
+}
+
+/* trigger of F166: lyd_dup_siblings() into a parent that already holds an instance of a system-ordered (leaf-)list of
+ * which the source has at least two instances in a row */
+static void
+mark_dup_into(const struct lyd_node *n, const struct lyd_node *p)
+{
+    const struct lyd_node *s, *d;
+
+    LY_LIST_FOR(n, s) {
+        if (!s->schema || !lyds_is_supported(s) || !s->next || s->next->schema != s->schema) continue;
+        LY_LIST_FOR(lyd_child(p), d) if (d->schema == s->schema) { MARK("F166"); return; }
+    }
+}
+#else
+# define mark_merge2(n, first_dst)
+# define mark_dup_into(n, p)
+#endif
+
 static void
 run_op(char *op, int last)
 {
@@ -850,6 +891,7 @@ run_op(char *op, int last)
                     (!n->schema || lysc_data_parent(n->schema) == t->schema) && is_multi_move(n)) REFUSE("OutOfFragment");
         }
         if (is_multi_move(n)) MARK("F144");
+        if (is_multi_move(n) && (t->schema->nodetype & LYD_NODE_INNER)) mark_merge2(n, lyd_child(t));
         done(lyd_insert_child(t, n), search);
     } else if (!strcmp(a[0], "ins_sibling") && na == 3) {
         struct lyd_node *n = node_arg(a[1]), *t = node_arg(a[2]);
@@ -867,6 +909,7 @@ run_op(char *op, int last)
         if (n != t && n->schema && !t->schema) MARK("F141");   /* no schema check at all next to an opaque sibling */
         if (n != t && lyd_first_sibling(t) == n) MARK("F112");
         if (n != t && is_multi_move(n)) MARK("F144");
+        if (n != t && is_multi_move(n) && lyd_first_sibling(t) != n) mark_merge2(n, lyd_first_sibling(t));
         done(lyd_insert_sibling(t, n, NULL), search);
     } else if ((!strcmp(a[0], "ins_before") || !strcmp(a[0], "ins_after")) && na == 3) {
         struct lyd_node *n = node_arg(a[1]), *t = node_arg(a[2]);
@@ -966,6 +1009,7 @@ run_op(char *op, int last)
         if (p && (!p->schema || !(p->schema->nodetype & LYD_NODE_INNER))) REFUSE("ParentNotInner");
         if (p && (!n->schema || lysc_data_parent(n->schema) != p->schema)) REFUSE("BadParent");
         if (p && lyd_parent(n) == p) REFUSE("SameParent");   /* copying a list into itself does not terminate */
+        if (p) mark_dup_into(n, p);
         LY_ERR r = lyd_dup_siblings(n, (struct lyd_node_inner *)p, (uint32_t)atoi(a[3]), &d);
         if (!r && d) {
             struct lyd_node *top = d, *it;
